@@ -31,7 +31,14 @@ def materialise(ents, path, c, rnd, contents):
     for e in ents:
         p = os.path.join(path, e["name"])
         if e["kind"] == "f":
-            data = bytes(rnd.getrandbits(8) for _ in range(size_of(e["sz"], c)))
+            n_ = size_of(e["sz"], c)
+            kind = rnd.randrange(4)
+            if kind == 0:
+                data = bytes(n_)                                      # all zero bytes
+            elif kind == 1:
+                data = bytes(rnd.randint(1, 255) for _ in range(n_ // 2)) + bytes(n_ - n_ // 2)    # zero tail
+            else:
+                data = bytes(rnd.getrandbits(8) for _ in range(n_))
             with open(p, "wb") as f:
                 f.write(data)
             contents[p] = data
@@ -201,7 +208,7 @@ def main():
                     case = os.path.join(work, "single")
                     os.makedirs(case, exist_ok=True)
                     src, dst = os.path.join(case, "s.bin"), os.path.join(case, "d.bin")
-                    data = os.urandom(size)
+                    data = os.urandom(size) if rnd.random() < 0.5 else (os.urandom(size // 2) + bytes(size - size // 2))
                     open(src, "wb").write(data)
                     rec = RecOpen()
                     classic.open = rec
